@@ -12,7 +12,8 @@
    The bytes of a message are the entity itself (its number); APPEND creates a new entity.
 
    Commands carry RESOLVED targets: the acting session's view (which message entities a sequence set denotes in
-   that session, in the order in which the set names them, each once — C16) is an input, because a session may still
+   that session, each once — C16 —, in the order in which the server hands them to the index: Mailbox.Copy / Mailbox.Move
+   sort the selection by ascending UID since /repo b3397cc; for the other commands the order does not matter) is an input, because a session may still
    see a message that another session has expunged.  Semantics of such stale targets: STORE changes the shared
    flags only; COPY lets the entity re-enter the destination under a new UID; MOVE and EXPUNGE ignore it.
 
